@@ -1886,6 +1886,12 @@ class GramStack(Stack):
             blockeds = [] # will always be empty since only once
             if self.txPkts:
                 self._serviceOneTxPkt(laters, blockeds)
+            if blockeds:  # defer the later packets to the blocked destination too
+                pendings = deque()  # keeps them sequential without blocking the others
+                while self.txPkts:
+                    duple = self.txPkts.popleft()
+                    (laters if duple[1] in blockeds else pendings).append(duple)
+                self.txPkts.extend(pendings)
             while laters:
                 self.txPkts.append(laters.popleft())
 
